@@ -60,7 +60,9 @@ end AMap
 
 /-! ### definitions (the fields `IsSame` compares, as far as the generators vary them) -/
 
-/-- `structs.NodeService`: `port` stands for every other compared field. `ta` is the
+/-- `structs.NodeService`: `port` stands for every other field `NodeService.IsSame` compares
+    (Port, Address, Weights, Meta, Locality, Kind, Proxy, Connect, SocketPath, Ports — see
+    `svcSameFields` in CV.AETok, tied to the Go source by a regenerated fact). `ta` is the
     TaggedAddresses map kept sorted by key. -/
 structure SvcDef where
   name : String
@@ -71,16 +73,19 @@ structure SvcDef where
 deriving DecidableEq, Repr
 
 /-- `structs.HealthCheck`: `sid = ""` is a node-level check; `status` stands for Status+Output;
-    `sname`/`stags` are the copies of the service's name and tags that the check row carries. -/
+    `sname`/`stags` are the copies of the service's name and tags that the check row carries;
+    `rest` stands for the remaining fields `HealthCheck.IsSame` compares (Name, Notes, Definition —
+    see `chkSameFields`), which neither `UpdateCheck` nor the output deferral touches. -/
 structure ChkDef where
   sid    : Id
   status : Nat
   sname  : String
   stags  : List String
+  rest   : Nat
 deriving DecidableEq, Repr
 
 /-- what the servers do not own in a check: everything but the denormalised service name/tags -/
-def ChkDef.core (d : ChkDef) : Id × Nat := (d.sid, d.status)
+def ChkDef.core (d : ChkDef) : Id × Nat × Nat := (d.sid, d.status, d.rest)
 
 /-- One record of `l.services` / `l.checks`.
     `ghost` is `&ServiceState{Deleted: true}` / `&CheckState{Deleted: true}`: the placeholder for a
@@ -130,6 +135,7 @@ structure Cfg where
   cfgTok  : String     -- tokens.ConfigFileRegistrationToken()
   userTok : String     -- tokens.UserToken()
   cui : Bool := false  -- config.CheckUpdateInterval > 0: output-only check updates are deferred
+  agentTok : String := ""  -- tokens.AgentToken(): node info, reads and every deregistration
 deriving DecidableEq, Repr
 
 def Local.empty : Local := ⟨false, [], [], []⟩
@@ -147,11 +153,22 @@ structure RegReq where
   svc  : Option (Id × SvcDef)
   chks : List (Id × ChkDef)
 
-/-- `ensureRegistrationTxn`, node part: written when missing, or when `ChangesNode` -/
+/-- `ensureNodeTxn`: a node registration that differs from the stored node in nothing that
+    `Node.IsSame` compares is dropped ("We do not need to update anything"). `Node.IsSame` looks
+    at ID, name, address, tagged addresses and meta — the part `v % 40` of a node value — but NOT at
+    the Locality (`v / 40`), although `ChangesNode` and `updateSyncState` do: a locality-only
+    difference is never written (side finding; the rest of the node value stands for itself). -/
+def nodeWrite (old : Option Nat) (v : Nat) : Option Nat :=
+  match old with
+  | none => some v
+  | some w => if w % 40 = v % 40 then some w else some v
+
+/-- `ensureRegistrationTxn`, node part: written when missing, or when `ChangesNode` (and then
+    subject to `nodeWrite`) -/
 def Cat.regNode (c : Cat) (v : Nat) (skip : Bool) : Cat :=
   match c.node with
   | none => { c with node := some v }
-  | some _ => if skip then c else { c with node := some v }
+  | some _ => if skip then c else { c with node := nodeWrite c.node v }
 
 /-- `ensureCheckTxn` for each check in request order; a check bound to a service that the
     catalog does not hold aborts the whole transaction (`ErrMissingService`). -/
@@ -301,7 +318,8 @@ def usSvc (c : Cat) (id : Id) (e : Ent SvcDef) : Ent SvcDef :=
 /-- `IsSame` with the Output blanked on both sides (what `updateSyncState` compares while the
     defer timer of the check is armed) -/
 def sameButOutput (d rc : ChkDef) : Bool :=
-  d.sid == rc.sid && d.status % 3 == rc.status % 3 && d.sname == rc.sname && d.stags == rc.stags
+  d.sid == rc.sid && d.status % 3 == rc.status % 3 && d.sname == rc.sname && d.stags == rc.stags &&
+  d.rest == rc.rest
 
 def usChk (c : Cat) (armed : Id → Bool) (k : Id) (e : Ent ChkDef) : Ent ChkDef :=
   match c.chks.get? k with
@@ -377,10 +395,10 @@ def markChk (l : Local) (k : Id) : Local := markChks l [k]
 /-- `syncNodeInfo`; the Bool says whether `SyncChanges` carries on -/
 def syncNode (cfg : Cfg) (f : Faults) (s : St) : St × Bool :=
   match f.node with
-  | .ok => ({ s with l := { s.l with nodeInSync := true }, c := { s.c with node := some cfg.nodeVal } }, true)
+  | .ok => ({ s with l := { s.l with nodeInSync := true }, c := { s.c with node := nodeWrite s.c.node cfg.nodeVal } }, true)
   | .denied => ({ s with l := { s.l with nodeInSync := true } }, true)
   | .fail => ({ s with ok := false }, false)
-  | .lost => ({ s with c := { s.c with node := some cfg.nodeVal }, ok := false }, false)
+  | .lost => ({ s with c := { s.c with node := nodeWrite s.c.node cfg.nodeVal }, ok := false }, false)
 
 def syncService (cfg : Cfg) (f : Faults) (id : Id) (d : SvcDef) (tok : String) (loc : Bool) (s : St) : St :=
   let pg := piggy cfg s.l id (effTok cfg tok loc)
